@@ -159,3 +159,41 @@ contract("parsers:TimePointParser.parse", use_at_calls=False, opaque=["dby"],
          note="every complete date-time form: the digits of the text end up in the fields "
               "the notation says; BadInputError exactly for impossible values; "
               "basic/extended mixes refused")
+
+
+# ---------------------------------------------------------------- dump, then parse (C08)
+def mk_text_dumper(E, st, x=0):
+    import sys
+    if E.db.repo not in sys.path:
+        sys.path.insert(0, E.db.repo)
+    key = ("dumper", x)
+    if key not in _real_cache:
+        from metomi.isodatetime.dumpers import TimePointDumper
+        _real_cache[key] = TimePointDumper(x)
+    real = _real_cache[key]
+    ci = E.db.class_by_name["TimePointDumper"]
+    r = st.alloc("obj", ci, fresh=False)
+    st.obj(r).slots.update({
+        "num_expanded_year_digits": x, "_timepoint_parser": None, "_time_designator": "T",
+        "_rec_formats": _to_engine(E, st, real._rec_formats)})
+    return r
+
+
+def _rt_cases():
+    from .shapes import mk_timepoint, DATES
+    out = []
+    for d in DATES:
+        for x in (0, 2):
+            def build(E, st, d=d, x=x):
+                p = mk_timepoint(E, st, "p", d, "hms", whole=True, ned=x)
+                return {"p": p, "dumper": mk_text_dumper(E, st, x),
+                        "parser": mk_text_parser(E, st, x=x, assumed=None)}
+            req = ["normal24(p)", "p._dump_format is None",
+                   ("0 <= p._year and p._year <= 9999") if x == 0 else
+                   ("-999999 <= p._year and p._year <= 999999")]
+            out.append(Case("%s-x%d" % (d, x), build, requires=req))
+    return out
+
+
+contract("ghost:timepoint_text_round_trip", use_at_calls=False, opaque=["dby"],
+         cases=_rt_cases(), check_frames=False)
